@@ -63,6 +63,13 @@ DAMAGED = [
     ('connect-v6-unbracketed', 'CONNECT', '::1:443', 'either'),
     ('connect-path', 'CONNECT', 'h:443/x', 'either'),
     ('space-in-host', 'GET', 'http://h h/', 'reject'),
+    # host bytes that are not text: dropping or replacing them would name ANOTHER, valid host
+    ('nonutf8-host', 'GET', b'http://exam\xffple.test/x', 'reject'),
+    ('nonutf8-host-port', 'GET', b'http://exam\xffple.test:8080/x', 'reject'),
+    ('connect-nonutf8-host', 'CONNECT', b'exam\xffple.test:443', 'reject'),
+    ('nonutf8-host-tail', 'GET', b'http://example.test\xfe/x', 'reject'),
+    ('truncated-utf8-host', 'GET', b'http://example\xc3.test/x', 'reject'),
+    ('nul-in-host', 'GET', b'http://exam\x00ple.test/x', 'reject'),
 ]
 
 
@@ -145,10 +152,12 @@ def scenarios(tier):
                                       'port': 'explicit' if port is not None else 'default',
                                       '_t': t, '_h': h, '_addr': addr, '_path': path_ref, '_expect': 'valid'}))
     for (label, method, t, exp) in DAMAGED:
-        raw = ('%s %s HTTP/1.1\r\nHost: x\r\n\r\n' % (method, t)).encode()
+        tb = t if isinstance(t, bytes) else t.encode()
+        raw = method.encode() + b' ' + tb + b' HTTP/1.1\r\nHost: x\r\n\r\n'
         out.append(Scenario('damaged %s' % label, ['--threadless'], mode='local',
                             clients=[dict(script=[('send', raw), ('wait_idle',), ('close',)])],
-                            origins={}, dns={'h': '10.9.0.1'}, kinds='', horizon=300,
+                            origins={('10.9.0.2', p): (lambda: HttpOrigin([], respond=lambda c, k, r: [OK])) for p in (80, 8080, 443)},
+                            dns={'h': '10.9.0.1', 'example.test': '10.9.0.2'}, kinds='', horizon=300,
                             features={'part': 'connect', 'form': 'damaged', 'case': label, '_t': t, '_expect': exp}))
     return out
 
@@ -172,6 +181,11 @@ def check(w):
             # anything that could put a packet on the wire counts as mis-routing
             if [a for a in w.connect_log if 1 <= a[1][1] <= 65535]:
                 bad('damaged_target_caused_outbound_connection')
+            tb = f['_t'] if isinstance(f['_t'], bytes) else f['_t'].encode()
+            for host, _port in w.dns_log:
+                hb = host if isinstance(host, bytes) else str(host).encode()
+                if hb not in tb:
+                    bad('damaged_target_looked_up_a_name_it_does_not_contain', looked_up=host)
             if not rejected:
                 bad('damaged_target_not_rejected_as_protocol_error')
         else:
